@@ -823,7 +823,10 @@ def check_graph_store(ctx, rep, RULE):
     rep.ob(RULE, ok, add.node, add, construct="MolecularGraph.add_attribution", how="stores / extends the entry of the given object with the given list",
            witness=None if ok else "add_attribution does not file the list under the object it was given", key="store/add", nontrivial=True)
     rets = [r for r in own_nodes(get.node) if isinstance(r, ast.Return) and r.value is not None and not (isinstance(r.value, ast.Constant) and r.value.value is None)]
-    ok = bool(rets) and all(unparse(r.value) == "%s.%s[%s]" % (get.posparams[0], field, o_get) for r in rets)
+    base = "%s.%s" % (get.posparams[0], field)
+    forms = {"%s[%s]" % (base, o_get), "%s.get(%s)" % (base, o_get), "%s.get(%s, None)" % (base, o_get)}
+    forms |= {"list(%s)" % f for f in forms} | {"%s.copy()" % f for f in forms} | {"%s[:]" % f for f in forms}
+    ok = bool(rets) and all(unparse(r.value) in forms for r in rets)
     rep.ob(RULE, ok, get.node, get, construct="MolecularGraph.get_attribution", how="returns the entry filed under the same object (or None)",
            witness=None if ok else "get_attribution does not return the entry stored for the object asked about", key="store/get", nontrivial=True)
     # who may write the store
